@@ -1,5 +1,12 @@
 import Reduino.Lemmas.C01
 import Reduino.Lang.Tr2
+/-
+  C01 helpers, part p: promotion (`tr2`, `InF2`).
+  Idea: under the FINAL type environment every promoted name is declared, so a promotable block (`okBody2`/`okChain2`) is an
+  ordinary nested statement (`okNested`) and its translation (`trBody2`/`trChain2`) is `trNested` of it; the block is then simulated
+  by the existing lemma `sim`.  The declarations threaded by `okTop2` and by `trTop2` differ in order (sorted per branch), so they
+  are related by `Eqv` (same lookup function) instead of equality.
+-/
 namespace Reduino.Lemmas.C01p
 open Reduino.Lang Reduino.Lemmas.C01
 
@@ -1159,5 +1166,208 @@ theorem C01_partial_promotion_aux (p : Prog) (c : CProg) (N fuel : Nat) (t : Lis
       simp only [htef, hs0, ok_bind, hf1]
       rfl
 
+
+
+/-! ### `tr2` extends `tr`, `InF2` extends `InF` -/
+
+theorem newDecls_self (te : C.TyEnv) : newDecls te te = [] := by
+  unfold newDecls
+  rw [List.filter_eq_nil_iff]
+  intro d hd h
+  rw [Option.isNone_iff_eq_none] at h
+  exact keys_of_lookup_none h d hd rfl
+
+theorem sortDecls_nil : sortDecls [] = [] := by simp [sortDecls, Promote.sorted]
+
+theorem addPromoted_nil (acc : TopAcc) : addPromoted acc [] = acc := by
+  cases acc; simp [addPromoted]
+
+theorem trBody2_of_trNested (s : Stmt) : ∀ (te : C.TyEnv) (d : Nat) (s' : Stmt),
+    trNested te false d s = .ok s' → trBody2 te s = .ok (s', te) := by
+  have other : ∀ s, isOther s = true → ∀ (te : C.TyEnv) (d : Nat) (s' : Stmt),
+      trNested te false d s = .ok s' → trBody2 te s = .ok (s', te) := by
+    intro s hs te d s' h
+    rw [trNested_false_d s te d 1] at h
+    cases s <;> simp only [isOther, Bool.false_eq_true] at hs <;>
+    · simp only [trBody2, h, ok_bind]; rfl
+  induction s with
+  | skip => intro te d s' h; simp only [trNested] at h; cases h; rfl
+  | seq a b iha ihb =>
+    intro te d s' h
+    rw [trNested] at h
+    obtain ⟨a', ha, h⟩ := bind_ok h
+    obtain ⟨b', hb, h⟩ := bind_ok h
+    cases h
+    simp only [trBody2, iha te d a' ha, ok_bind, ihb te d b' hb]; rfl
+  | assign x e =>
+    intro te d s' h
+    rw [trNested] at h
+    split at h
+    · rename_i hl
+      cases h
+      obtain ⟨t, ht⟩ := Option.isSome_iff_exists.1 hl
+      simp only [trBody2, ht]
+    · cases h
+  | _ => exact other _ rfl
+
+theorem elseTr_of_trNested (s : Stmt) : ∀ (te : C.TyEnv) (d : Nat) (s' : Stmt),
+    trNested te false d s = .ok s' → elseTr te s = .ok (s', []) := by
+  induction s with
+  | skip => intro te d s' h; simp only [trNested] at h; cases h; rfl
+  | ifs c t e _ ihe =>
+    intro te d s' h
+    rw [trNested] at h
+    obtain ⟨t', ht, h⟩ := bind_ok h
+    obtain ⟨e', he, h⟩ := bind_ok h
+    cases h
+    show trChain2 te (.ifs c t e) = _
+    rw [trChain2_unfold, trBody2_of_trNested t te d t' ht, ok_bind, ihe te d e' he, ok_bind]
+    simp only [newDecls_self, sortDecls_nil, List.filter_nil, List.append_nil]
+    rfl
+  | _ =>
+    intro te d s' h
+    simp only [elseTr, trBody2_of_trNested _ te d s' h, ok_bind, newDecls_self, sortDecls_nil]
+    rfl
+
+theorem trTop2_of_trTop (s : Stmt) : ∀ (acc acc1 : TopAcc), trTop acc s = .ok acc1 → trTop2 acc s = .ok acc1 := by
+  induction s with
+  | skip => intro acc acc1 h; exact h
+  | seq a b iha ihb =>
+    intro acc acc1 h
+    simp only [trTop] at h
+    obtain ⟨acca, ha, h⟩ := bind_ok h
+    simp only [trTop2, iha acc acca ha, ok_bind]
+    exact ihb acca acc1 h
+  | ifs c t e _ _ =>
+    intro acc acc1 h
+    simp only [trTop] at h
+    obtain ⟨s', hs', h⟩ := bind_ok h
+    cases h
+    have := elseTr_of_trNested _ acc.te 0 s' hs'
+    simp only [elseTr] at this
+    simp only [trTop2, this, ok_bind, addPromoted_nil]
+    rfl
+  | whileLoop c b _ =>
+    intro acc acc1 h
+    simp only [trTop, trNested] at h
+    obtain ⟨s', hs', h⟩ := bind_ok h
+    obtain ⟨b', hb', hs'⟩ := bind_ok hs'
+    cases hs'; cases h
+    simp only [trTop2, trBody2_of_trNested b acc.te _ b' hb', ok_bind, newDecls_self, addPromoted_nil]
+    rfl
+  | forRange i n b _ =>
+    intro acc acc1 h
+    simp only [trTop, trNested] at h
+    obtain ⟨s', hs', h⟩ := bind_ok h
+    cases h
+    split at hs'
+    · cases hs'
+    · rename_i hi
+      obtain ⟨b', hb', hs'⟩ := bind_ok hs'
+      cases hs'
+      simp only [trTop2, if_neg hi, trBody2_of_trNested b _ _ b' hb', ok_bind, newDecls_self, addPromoted_nil]
+      rfl
+  | _ => intro acc acc1 h; exact h
+
+theorem tr2_of_tr (p : Prog) (c : CProg) (htr : tr p = .ok c) : tr2 p = .ok c := by
+  unfold tr at htr
+  obtain ⟨acc, hacc, htr⟩ := bind_ok htr
+  unfold tr2
+  rw [trTop2_of_trTop _ _ _ hacc, ok_bind]
+  exact htr
+
+theorem okBody2_of_okNested (all : List String) (s : Stmt) : ∀ (te : C.TyEnv),
+    s.okNested all te = true → s.okBody2 all te = some te := by
+  induction s with
+  | skip => intro te _; rfl
+  | seq a b iha ihb =>
+    intro te h
+    simp only [Stmt.okNested, Bool.and_eq_true] at h
+    simp only [Stmt.okBody2, iha te h.1]
+    exact ihb te h.2
+  | assign x e =>
+    intro te h
+    simp only [Stmt.okNested, Bool.and_eq_true, beq_iff_eq] at h
+    simp only [Stmt.okBody2, h.1, h.2, Bool.not_true, Bool.false_eq_true, if_false, beq_self_eq_true, if_true]
+  | _ => intro te h; simp only [Stmt.okBody2, h, if_true]
+
+theorem elseEnv_of_okNested (all : List String) (s : Stmt) : ∀ (te : C.TyEnv),
+    s.okNested all te = true → elseEnv all te s = some te := by
+  induction s with
+  | skip => intro te _; rfl
+  | ifs c t e _ ihe =>
+    intro te h
+    simp only [Stmt.okNested, Bool.and_eq_true] at h
+    show (Stmt.ifs c t e).okChain2 all te = _
+    rw [okChain2_unfold, if_neg (by simp [h.1.1]), okBody2_of_okNested all t te h.1.2, ihe te h.2]
+    simp only [Option.bind_some, newDecls_self, List.all_nil, if_true, List.filter_nil, List.append_nil]
+  | _ => intro te h; exact okBody2_of_okNested all _ te h
+
+theorem okTop2_of_okTop (all : List String) (s : Stmt) : ∀ (te te1 : C.TyEnv),
+    s.okTop all te = some te1 → s.okTop2 all te = some te1 := by
+  induction s with
+  | skip => intro te te1 h; exact h
+  | seq a b iha ihb =>
+    intro te te1 h
+    simp only [Stmt.okTop] at h
+    cases ha : a.okTop all te with
+    | none => rw [ha] at h; cases h
+    | some tea =>
+      rw [ha] at h
+      simp only [Stmt.okTop2, iha te tea ha]
+      exact ihb tea te1 h
+  | ifs c t e _ _ =>
+    intro te te1 h
+    simp only [Stmt.okTop] at h
+    split at h
+    · rename_i hok; cases h
+      exact elseEnv_of_okNested all _ te hok
+    · cases h
+  | whileLoop c b _ =>
+    intro te te1 h
+    simp only [Stmt.okTop] at h
+    split at h
+    · rename_i hok; cases h
+      simp only [Stmt.okNested, Bool.and_eq_true] at hok
+      simp only [Stmt.okTop2, hok.1, if_true]
+      exact okBody2_of_okNested all b te hok.2
+    · cases h
+  | forRange i n b _ =>
+    intro te te1 h
+    simp only [Stmt.okTop] at h
+    split at h
+    · rename_i hok; cases h
+      simp only [Stmt.okNested] at hok
+      rw [Bool.and_eq_true] at hok
+      obtain ⟨hcond, hb⟩ := hok
+      have hi : te.lookup i = none := by
+        have := hcond
+        simp only [Bool.and_eq_true, Option.isNone_iff_eq_none] at this; exact this.1.2
+      simp only [Stmt.okTop2, hcond, if_true, okBody2_of_okNested all b _ hb, Option.map_some]
+      congr 1
+      rw [List.filter_cons, if_neg (by simp), List.filter_eq_self]
+      intro a ha
+      simpa using keys_of_lookup_none hi a ha
+    · cases h
+  | _ => intro te te1 h; exact h
+
+theorem InF2_of_InF (p : Prog) (hin : InF p = true) : InF2 p = true := by
+  obtain ⟨pre, body⟩ := p
+  rw [InF_unfold] at hin
+  rw [InF2_unfold]
+  cases h : pre.okTop (allOf pre body) [] with
+  | none => rw [h] at hin; cases hin
+  | some te =>
+    rw [h] at hin
+    rw [okTop2_of_okTop _ _ _ _ h]
+    exact hin
+
+
+/-! ### concrete sorting facts for the examples -/
+
+theorem sorted_single (x : String) : Promote.sorted [x] = [x] := by simp [Promote.sorted]
+
+theorem sorted_zed_abe : Promote.sorted ["zed", "abe"] = ["abe", "zed"] := by
+  simp [Promote.sorted, List.mergeSort, Promote.strLe]
 
 end Reduino.Lemmas.C01p
